@@ -63,11 +63,13 @@ def replay(h, r):
                            timeout=h.timeout * 2, preexec_fn=runner._limit(max(32, h.mem)))
     except subprocess.TimeoutExpired:
         out["why"] = "concrete playback generation timed out"
+        out["generation_failed"] = True
         return out
     text = p.stdout + p.stderr
     test_code, test_name = pick_test(text)
     if not test_code:
         out["why"] = "no concrete playback test in output"
+        out["generation_failed"] = True
         with open(out["path"], "w") as f:
             f.write("// no concrete playback test was produced\n// failed checks: %s\n" % r["reason"])
         return out
